@@ -21,6 +21,7 @@ CONSTANTS
   Ceil = 43200
   ProvCap = 60
   MaxVer = 1
+  MaxPubOps = 0
   PubInits <- PubA
   Res = {1}
 SPECIFICATION SpecAnswer
